@@ -287,6 +287,21 @@ func TestVerifHs13Timed(t *testing.T) {
 		nb bool
 	}
 	tims := []tim{{0, false}, {10 * time.Millisecond, false}, {40 * time.Second, false}, {0, true}, {250 * time.Millisecond, true}}
+	// the dual-stack client repeats its ClientHello during version negotiation on the configured schedule
+	for _, name := range []string{"v13-dualc", "v13-dualc-direct"} {
+		v, _ := hs13Variant(name)
+		for _, tm := range tims {
+			sil := 300 * time.Second
+			if tm.nb {
+				sil = 12 * time.Second
+			}
+			for _, to := range []string{"client", "both"} {
+				jobs = append(jobs, hs13Job{v, nil, hs13Opt{
+					Interval: tm.iv, NoBackoff: tm.nb, SilenceUntil: sil, SilenceTo: to, Limit: sil + 400*time.Second,
+				}})
+			}
+		}
+	}
 	// an interval configured above the 60 s cap is never shortened, with and without backoff
 	for _, nb := range []bool{false, true} {
 		for vi, v := range variants {
